@@ -8,7 +8,9 @@ import (
 	"sort"
 	"time"
 
+	"github.com/dgraph-io/badger/v3"
 	"github.com/wrgl/wrgl/pkg/objects"
+	objbadger "github.com/wrgl/wrgl/pkg/objects/badger"
 	"github.com/wrgl/wrgl/pkg/prune"
 	"github.com/wrgl/wrgl/pkg/ref"
 )
@@ -37,10 +39,62 @@ type c12Input struct {
 	Seed   int64    `json:"genSeed"`
 	Before *c12Repo `json:"before"`
 	Refs   []int    `json:"refs"`
+	// Shape selects the kind of repository and run (chosen from the case index, see runC12):
+	//   ""         1..8 commits on the mock object store, prune.Prune twice
+	//   "big"      30..60 commits with 25..40 tables on a real badger store, prune.Prune twice
+	//   "reffault" the SQLite ref store fails (disk I/O error) from the Fault-th row of a scan on
+	//   "gc"       a repository directory (badger + SQLite files) with transactions of several ages,
+	//              `wrgl gc` / `wrgl prune` through the command line
+	Shape string    `json:"shape,omitempty"`
+	Fault int       `json:"fault,omitempty"`
+	GC    *c12GCSpec `json:"gc,omitempty"`
+}
+
+// c12Store is what the runner needs of an object store: the store itself and an enumeration of its
+// keys that does not go through the store's own listing code.
+type c12Store interface {
+	objects.Store
+	Keys() []string
+}
+
+// c12Badger is the real badger-backed store; Keys iterates the database directly.
+type c12Badger struct {
+	*objbadger.Store
+	bdb *badger.DB
+}
+
+func (s *c12Badger) Keys() []string {
+	var ks []string
+	s.bdb.View(func(txn *badger.Txn) error {
+		opt := badger.DefaultIteratorOptions
+		opt.PrefetchValues = false
+		it := txn.NewIterator(opt)
+		defer it.Close()
+		for it.Rewind(); it.Valid(); it.Next() {
+			ks = append(ks, string(it.Item().KeyCopy(nil)))
+		}
+		return nil
+	})
+	return ks
+}
+
+func openC12Badger(dir string) (*c12Badger, error) {
+	var opts badger.Options
+	if dir == "" {
+		opts = badger.DefaultOptions("").WithInMemory(true)
+	} else {
+		opts = badger.DefaultOptions(dir)
+	}
+	bdb, err := badger.Open(opts.WithLoggingLevel(badger.ERROR))
+	if err != nil {
+		return nil, err
+	}
+	return &c12Badger{Store: objbadger.NewStore(bdb), bdb: bdb}, nil
 }
 
 type c12World struct {
-	db       *MemStore
+	db       c12Store
+	refNames []string // names of the live refs, parallel to refs
 	rs       ref.Store
 	closeRS  func()
 	all      []GCommit
@@ -83,18 +137,63 @@ func (w *c12World) dump() *c12Repo {
 	return r
 }
 
-func buildC12(seed int64) (*c12World, error) {
+// buildC12 opens the stores of the shape and populates them; the caller closes with w.closeRS().
+func buildC12(seed int64, shape string) (*c12World, error) {
+	switch shape {
+	case "big":
+		db, err := openC12Badger("")
+		if err != nil {
+			return nil, err
+		}
+		rs, closeRS := NewRefStore()
+		w, err := buildC12On(seed, shape, db, rs)
+		if err != nil {
+			closeRS()
+			db.Close()
+			return nil, err
+		}
+		w.closeRS = func() { closeRS(); db.Close() }
+		return w, nil
+	case "reffault":
+		rs, closeRS := newC12FaultRefStore()
+		w, err := buildC12On(seed, shape, NewMemStore(), rs)
+		if err != nil {
+			closeRS()
+			return nil, err
+		}
+		w.closeRS = closeRS
+		return w, nil
+	}
+	rs, closeRS := NewRefStore()
+	w, err := buildC12On(seed, "", NewMemStore(), rs)
+	if err != nil {
+		closeRS()
+		return nil, err
+	}
+	w.closeRS = closeRS
+	return w, nil
+}
+
+func buildC12On(seed int64, shape string, db c12Store, rs ref.Store) (*c12World, error) {
 	r := rand.New(rand.NewSource(seed))
-	w := &c12World{db: NewMemStore(), byID: map[int]GCommit{}, tables: map[int]c12Table{}, comSum: map[int][]byte{}, tblSum: map[int][]byte{},
+	w := &c12World{db: db, rs: rs, byID: map[int]GCommit{}, tables: map[int]c12Table{}, comSum: map[int][]byte{}, tblSum: map[int][]byte{},
 		blkID: map[string]int{}, idxID: map[string]int{}, tblID: map[string]int{}, comID: map[string]int{}}
-	w.rs, w.closeRS = NewRefStore()
+	big := shape == "big"
 	// tables sharing blocks
-	base := GenTable(r, 2, []int{3, 20, 260, 300}[r.Intn(4)], []int{0}, 0)
+	baseRows := []int{3, 20, 260, 300}[r.Intn(4)]
+	if big && baseRows > 20 {
+		baseRows = 20
+	}
+	base := GenTable(r, 2, baseRows, []int{0}, 0)
 	for _, row := range base.Rows {
 		row[1] = []string{"a", "b"}[r.Intn(2)]
 	}
 	specs := []*TableSpec{base}
 	nT := 2 + r.Intn(3)
+	if big {
+		// enough objects for a key listing to run past the store iterator's prefetch window
+		nT = 25 + r.Intn(16)
+	}
 	for len(specs) < nT {
 		if r.Intn(2) == 0 {
 			v := cloneSpec(base)
@@ -142,6 +241,9 @@ func buildC12(seed int64) (*c12World, error) {
 	}
 	nTab := len(w.tables)
 	n := 1 + r.Intn(8)
+	if big {
+		n = 30 + r.Intn(31)
+	}
 	g := GenGraph(r, n, r.Intn(5), 0.3, 0.15)
 	for i := range g {
 		g[i].Table = 1 + r.Intn(nTab)
@@ -165,6 +267,12 @@ func buildC12(seed int64) (*c12World, error) {
 	// refs of every kind; some then deleted
 	kinds := []string{"heads/b%d", "tags/t%d", "remotes/origin/r%d", "txs/2b5e8c2e-0000-4000-8000-00000000000%d/x", "heads/n/e/s/t%d"}
 	nRefs := r.Intn(4)
+	switch shape {
+	case "big":
+		nRefs = 1 + r.Intn(4)
+	case "reffault":
+		nRefs = 2 + r.Intn(4)
+	}
 	for i := 0; i < nRefs; i++ {
 		c := 1 + r.Intn(n)
 		name := fmt.Sprintf(kinds[r.Intn(len(kinds))], i)
@@ -175,6 +283,7 @@ func buildC12(seed int64) (*c12World, error) {
 			w.rs.Delete(name)
 		} else {
 			w.refs = append(w.refs, c)
+			w.refNames = append(w.refNames, name)
 		}
 	}
 	// shallow commits: the table object (and sometimes its exclusive blocks) absent
@@ -198,6 +307,61 @@ func buildC12(seed int64) (*c12World, error) {
 	return w, nil
 }
 
+// c12Usable: every surviving commit with a table must be fully readable.
+func c12Usable(w *c12World, before, after *c12Repo) bool {
+	usable := true
+	for _, c := range after.Commits {
+		ts := w.tblSum[c.Table]
+		if !objects.TableExist(w.db, ts) {
+			continue
+		}
+		// only tables that were complete before are required to be usable
+		complete := true
+		for _, b := range w.tables[c.Table].Blocks {
+			found := false
+			for _, x := range before.Blocks {
+				if x == b {
+					found = true
+				}
+			}
+			if !found {
+				complete = false
+			}
+		}
+		if !complete {
+			continue
+		}
+		d, err := DumpTable(w.db, ts, true)
+		if err != nil || len(d.Problems) > 0 {
+			usable = false
+		}
+	}
+	return usable
+}
+
+// c12RunFault: prune while the ref store's scans fail from the k-th row on, then (the disk being
+// healthy again) prune once more. Nothing reachable may be lost by either run.
+func c12RunFault(w *c12World, k int) (Res, *c12Repo) {
+	before := w.dump()
+	res := Guard(func() Res {
+		c12RowFault.arm(k)
+		var err error
+		func() {
+			defer c12RowFault.disarm()
+			err = prune.Prune(w.db, w.rs, nil)
+		}()
+		hits := c12RowFault.disarm()
+		after := w.dump()
+		usable := c12Usable(w, before, after)
+		retryErr := prune.Prune(w.db, w.rs, nil) != nil
+		again := w.dump()
+		return Ok(map[string]interface{}{"faultHit": hits > 0, "pruneErr": err != nil, "after": after, "usable": usable,
+			"retryErr": retryErr, "afterRetry": again, "usableRetry": c12Usable(w, before, again)})
+	})
+	c12RowFault.disarm()
+	return res, before
+}
+
 func c12Run(w *c12World) (Res, *c12Repo) {
 	before := w.dump()
 	res := Guard(func() Res {
@@ -205,34 +369,7 @@ func c12Run(w *c12World) (Res, *c12Repo) {
 			return Err("prune")
 		}
 		after := w.dump()
-		// every surviving commit with a table must be fully readable
-		usable := true
-		for _, c := range after.Commits {
-			ts := w.tblSum[c.Table]
-			if !objects.TableExist(w.db, ts) {
-				continue
-			}
-			// only tables that were complete before are required to be usable
-			complete := true
-			for _, b := range w.tables[c.Table].Blocks {
-				found := false
-				for _, x := range before.Blocks {
-					if x == b {
-						found = true
-					}
-				}
-				if !found {
-					complete = false
-				}
-			}
-			if !complete {
-				continue
-			}
-			d, err := DumpTable(w.db, ts, true)
-			if err != nil || len(d.Problems) > 0 {
-				usable = false
-			}
-		}
+		usable := c12Usable(w, before, after)
 		// second prune must change nothing
 		if err := prune.Prune(w.db, w.rs, nil); err != nil {
 			return Err("prune-again")
@@ -245,24 +382,65 @@ func c12Run(w *c12World) (Res, *c12Repo) {
 	return res, before
 }
 
-func runC12(ctx *Ctx) {
-	if ctx.Idx%40 == 39 {
-		runC12CLI(ctx)
+// c12ShapeOf: the kind of case is a function of the case index alone.
+func c12ShapeOf(idx int) string {
+	switch {
+	case idx%20 == 9:
+		return "gc"
+	case idx%20 == 4:
+		return "reffault"
+	case idx%40 == 14:
+		return "big"
+	}
+	return ""
+}
+
+func c12Case(ctx *Ctx, seed int64, shape string, fault int, corpus bool) {
+	if shape == "gc" {
+		c12GCCase(ctx, seed, corpus)
 		return
 	}
-	seed := ctx.Seed*1000003 + int64(ctx.Idx)
-	w, err := buildC12(seed)
+	if shape != "big" && shape != "reffault" {
+		shape = ""
+	}
+	w, err := buildC12(seed, shape)
 	if err != nil {
-		ctx.Emit("prune", map[string]interface{}{"genSeed": seed}, Err("build"), false)
+		if !corpus {
+			ctx.Emit("prune", map[string]interface{}{"genSeed": seed, "shape": shape}, Err("build"), false)
+		}
 		return
 	}
 	defer w.closeRS()
-	res, before := c12Run(w)
 	refs := w.refs
 	if refs == nil {
 		refs = []int{}
 	}
-	in := &c12Input{Seed: seed, Before: before, Refs: refs}
+	if shape == "reffault" {
+		if fault < 0 || fault > 1000 {
+			fault = 0
+		}
+		res, before := c12RunFault(w, fault)
+		tags := []string{"ref-scan-fault"}
+		nt := false
+		if res["res"] == "ok" {
+			v := res["val"].(map[string]interface{})
+			if v["faultHit"].(bool) {
+				tags = append(tags, "fault-hit")
+			}
+			nt = len(v["afterRetry"].(*c12Repo).Commits) < len(before.Commits)
+		}
+		if corpus {
+			tags, nt = []string{"corpus"}, true
+		}
+		ctx.Emit("prune-fault", &c12Input{Seed: seed, Before: before, Refs: refs, Shape: shape, Fault: fault}, res, nt, tags...)
+		return
+	}
+	res, before := c12Run(w)
+	in := &c12Input{Seed: seed, Before: before, Refs: refs, Shape: shape}
+	if corpus {
+		ctx.Emit("prune", in, res, true, "corpus")
+		return
+	}
 	nt := false
 	if res["res"] == "ok" {
 		after := res["val"].(map[string]interface{})["after"].(*c12Repo)
@@ -272,23 +450,34 @@ func runC12(ctx *Ctx) {
 	if len(before.Tables) < len(w.tables) {
 		tags = append(tags, "shallow")
 	}
+	if shape == "big" {
+		tags = append(tags, "badger-big")
+	}
 	ctx.Emit("prune", in, res, nt, tags...)
 }
 
+func runC12(ctx *Ctx) {
+	if ctx.Idx%40 == 39 {
+		runC12CLI(ctx)
+		return
+	}
+	seed := ctx.Seed*1000003 + int64(ctx.Idx)
+	shape := c12ShapeOf(ctx.Idx)
+	fault := 0
+	if shape == "reffault" {
+		// 0..5 rows of the scan are delivered before the error (2..5 refs exist)
+		fault = []int{1, 2, 0, 1, 3, 2, 1, 4, 2, 5}[(ctx.Idx/20)%10]
+	}
+	c12Case(ctx, seed, shape, fault, false)
+}
+
 func corpusC12(ctx *Ctx, op string, raw json.RawMessage) {
+	if op == "gc-cli" {
+		return
+	}
 	var in c12Input
 	if err := json.Unmarshal(raw, &in); err != nil {
 		panic(err)
 	}
-	w, err := buildC12(in.Seed)
-	if err != nil {
-		return
-	}
-	defer w.closeRS()
-	res, before := c12Run(w)
-	refs := w.refs
-	if refs == nil {
-		refs = []int{}
-	}
-	ctx.Emit("prune", &c12Input{Seed: in.Seed, Before: before, Refs: refs}, res, true, "corpus")
+	c12Case(ctx, in.Seed, in.Shape, in.Fault, true)
 }
